@@ -201,10 +201,12 @@ const (
 	tDisjoint
 	tOtherType
 	tBadClient
+	tServerPartial
+	tServerCodecOtherCode
 	tCount
 )
 
-var c11TableName = []string{"same", "client-only", "server-only", "disjoint-codes", "same-code-other-type", "client-conversion-fails"}
+var c11TableName = []string{"same", "client-only", "server-only", "disjoint-codes", "same-code-other-type", "client-conversion-fails", "server-knows-only-unrelated-types", "server-lists-codec-types-under-other-codes"}
 
 func regAll(e *jsonrpc.Errors, base jsonrpc.ErrorCode) {
 	e.Register(base+1, new(EVal))
@@ -244,6 +246,17 @@ func tables(t int) (srv, cli *jsonrpc.Errors) {
 		c.Register(104, new(*MPtr))
 		c.Register(3001, new(*CodecD))
 		c.Register(3002, new(*CodecS))
+		return &s, &c
+	case tServerPartial:
+		s.Register(101, new(EVal))
+		regAll(&c, 100)
+		return &s, &c
+	case tServerCodecOtherCode:
+		s.Register(101, new(EVal))
+		s.Register(555, new(*CodecS))
+		s.Register(556, new(*CodecD))
+		s.Register(557, new(*CodecF))
+		regAll(&c, 100)
 		return &s, &c
 	case tBadClient:
 		regAll(&s, 100)
@@ -377,6 +390,9 @@ func (c11) Run(sc core.Scenario) core.Result {
 				case kMVal:
 					code = 104
 				}
+				if (t == tServerPartial || t == tServerCodecOtherCode) && kind != kEVal {
+					code = 1 // not in the server's table
+				}
 			}
 		}
 		// what the client maps that code to
@@ -445,7 +461,7 @@ func clientTypeFor(t int, code int) reflect.Type {
 	base := map[int]reflect.Type{}
 	add := func(c int, v interface{}) { base[c] = reflect.TypeOf(v).Elem() }
 	switch t {
-	case tSame, tClientOnly:
+	case tSame, tClientOnly, tServerPartial, tServerCodecOtherCode:
 		add(101, new(EVal))
 		add(102, new(*EPtr))
 		add(103, new(*MPtr))
